@@ -646,8 +646,54 @@ class LinalgModel:
             )
         raise Unsupported("det n=%d" % n)
 
+    _uf_cache = {}
+
+    def _uf(self, name, nargs):
+        k = (name, nargs)
+        if k not in self._uf_cache:
+            self._uf_cache[k] = z3.Function(name, *([z3.RealSort()] * (nargs + 1)))
+        return self._uf_cache[k]
+
+    def _inv_uf(self, A):
+        """inverse as uninterpreted functions of the entries (congruence: equal arguments ->
+        equal results) + the contract A M = M A = I as axiom instances"""
+        n = A.shape[0]
+        args = [_z(v) for v in A.flat]
+        M = _np.empty((n, n), dtype=object)
+        inbad = bor(*[_bad(v) for v in A.flat])
+        for i in range(n):
+            for j in range(n):
+                M[i, j] = SV(self._uf("inv%d_%d%d" % (n, i, j), n * n)(*args), inbad)
+        P = _plain(A) @ M
+        Q = M @ _plain(A)
+        for i in range(n):
+            for j in range(n):
+                self.axioms.append(_z(P[i, j]) == (1 if i == j else 0))
+                self.axioms.append(_z(Q[i, j]) == (1 if i == j else 0))
+        return M.view(SArr)
+
+    def _chol_uf(self, A, lower):
+        n = A.shape[0]
+        tri = [(i, j) for i in range(n) for j in range(i + 1)]
+        args = [_z(A[i, j] if lower else A[j, i]) for (i, j) in tri]
+        inbad = bor(*[_bad(v) for v in A.flat])
+        L = _np.empty((n, n), dtype=object)
+        L[...] = 0
+        for (i, j) in tri:
+            L[i, j] = SV(self._uf("chol%d_%d%d" % (n, i, j), len(args))(*args), inbad)
+        Pm = L @ L.T
+        for (i, j) in tri:
+            self.axioms.append(_z(Pm[i, j]) == _z(A[i, j] if lower else A[j, i]))
+        for i in range(n):
+            self.axioms.append(_z(L[i, i]) > 0)
+        return L.view(SArr)
+
     def inv(self, A, **kw):
         A = _obj(A)
+        if self.mode == "uf" and A.ndim == 2 and A.shape[0] == A.shape[1]:
+            r = self._inv_uf(A)
+            self.calls.append(("inv", A.copy(), r))
+            return r
         if A.ndim == 3:
             return _np.stack([_plain(self.inv(A[i])) for i in range(A.shape[0])]).view(SArr)
         if A.ndim != 2 or A.shape[0] != A.shape[1]:
@@ -701,6 +747,11 @@ class LinalgModel:
         if A.ndim != 2 or A.shape[0] != A.shape[1]:
             raise ValueError("expected square matrix")
         n = A.shape[0]
+        if self.mode == "uf":
+            L = self._chol_uf(A, lower)
+            r = L if lower else L.T.copy().view(SArr)
+            self.calls.append(("cholesky", A.copy(), r, lower))
+            return r
         L = _np.empty((n, n), dtype=object)
         L[...] = 0
         if self.mode == "closed" and n <= 2:
